@@ -163,7 +163,7 @@ static void gen_weak_token(cx_buf *b)
 }
 static void gen_weak_tail(cx_buf *b)
 {
-    switch ((int) vh_below(9)) {
+    switch ((int) vh_below(10)) {
     case 0: cx_buf_addc(b, '\\'); break;
     case 1: cx_buf_adds(b, "${"); cx_buf_adds(b, UNSETNAMES[vh_below(4)]); break;
     case 2: cx_buf_adds(b, "$("); cx_buf_adds(b, UNSETNAMES[vh_below(4)]); break;
@@ -172,6 +172,7 @@ static void gen_weak_tail(cx_buf *b)
     case 5: cx_buf_addc(b, '%'); break;
     case 6: cx_buf_addc(b, '$'); break;
     case 7: cx_buf_adds(b, "'\\"); break;           /* backslash at the end inside single quotes */
+    case 8: cx_buf_adds(b, vh_coin(50) ? "`" : "`cmd"); break;   /* unterminated backquote (system() is wrapped) */
     default: cx_buf_adds(b, "%get("); break;
     }
 }
@@ -423,7 +424,8 @@ int main(int argc, char **argv)
                     cx_ref_expand(&dry, lines[i].text.b, &o, 0);
                     /* exact-size placement only where the result cannot legitimately be longer than the input:
                        strong lines whose model output fits, and lines built as "non-growing body + weak tail" */
-                    placed_exact[i] = o.n <= lines[i].text.n && dry.nwild == 0 && (!dry.weak || lines[i].exact_hint) && !(dry.feat & (CXF_BQ));
+                    placed_exact[i] = o.n <= lines[i].text.n && dry.nwild == 0 && (!dry.weak || lines[i].exact_hint) &&
+                                      (!(dry.feat & CXF_BQ) || (lines[i].exact_hint && !cx_sim_output));   /* a command that prints nothing cannot grow the text */
                     if (dry.weak && strcasestr(lines[i].text.b, "put")) dry.store_tainted = 1;
                     if (dry.store_tainted && (dry.feat & CXF_GET)) placed_exact[i] = 0;
                     cx_buf_free(&o);
